@@ -10,6 +10,9 @@
 #define VERIF_BUF 24
 #endif
 #define INVALID_ID 0xFFFFFFFFu
+#ifndef VERIF_NFIX
+#define VERIF_NFIX 2      /* pending fixups on the label: quick explores <= 1, thorough <= 2 */
+#endif
 struct Fixup* g_fx0; struct Fixup* g_fx1;          /* ghost: the label's pending fixups, in chain order */
 struct Fixup g_f0, g_f1;                            /* ghost: their contents on entry */
 struct SectionOrLabelEntryExtraHeader* g_le_hdr;    /* ghost: header of the label entry on entry */
@@ -47,7 +50,7 @@ static inline _Bool c_fixup_ok(const struct CodeHolder* self, const struct Fixup
 static inline _Bool c_bind_state(const struct CodeHolder* self, const struct Label* label) {
   if (LABELS(self)._size != 1 || SECS(self)._size > 2 || SECS(self)._size < 1 || RELS(self)._size > 1) return 0;
   for (unsigned i = 0; i < 2; i++) { if (SECP(self, i)->__b0._section_id != i || SECP(self, i)->_buffer._size > VERIF_BUF) return 0; }
-  if (g_nfix > 2) return 0;
+  if (g_nfix > VERIF_NFIX) return 0;
   const struct LabelEntry* le = LE(self, 0);
   if (le->_object_data != g_le_hdr || le->_object_data->_section_id != g_le_sec0) return 0;
   if (g_le_sec0 == INVALID_ID) {                   /* unbound: the offset field holds the head of the fixup chain */
